@@ -2,6 +2,7 @@
 # usage: lib/try_seed.sh <patch.diff> <ID> [<ID>...]   -- apply a seeded change to /repo, run the quick checks, undo
 patch=$1; shift
 cd /verif
+export VERIF_EVIDENCE_DIR=/verif/.scratch/evidence_changed_tree   # evidence/ only ever holds runs on the unchanged tree
 git -C /repo apply "$patch" || { echo "patch does not apply"; exit 2; }
 for p in "$@"; do
   ./check $p quick 2>&1 | grep -v "^WARNING" | cut -c1-400
